@@ -9,6 +9,7 @@ use avt::Vt;
 pub enum MisKind {
     Geometry,
     Cursor,
+    PendingCursor,
     Visible,
     AppMode,
     CellChar,
@@ -72,7 +73,8 @@ pub fn compare_public(vt: &Vt, m: &Model, sb_tail: usize) -> Option<Mismatch> {
     }
     let c = vt.cursor();
     if (c.col, c.row) != (m.col, m.row) {
-        return mm(MisKind::Cursor, format!("cursor real ({},{}) model ({},{})", c.col, c.row, m.col, m.row));
+        let kind = if (c.col == m.cols) != (m.col == m.cols) { MisKind::PendingCursor } else { MisKind::Cursor };
+        return mm(kind, format!("cursor real ({},{}) model ({},{})", c.col, c.row, m.col, m.row));
     }
     if c.visible != m.visible {
         return mm(MisKind::Visible, format!("cursor visible real {} model {}", c.visible, m.visible));
@@ -169,7 +171,10 @@ pub fn compare_hidden(vs: &VerifState, m: &Model) -> Option<Mismatch> {
 
 /// Parser registers, compared only where they are live (canonical form).
 pub fn compare_parser(vs: &VerifState, pm: &PModel) -> Option<Mismatch> {
-    let p = vs.parser.as_ref()?;
+    compare_pstate(vs.parser.as_ref()?, pm)
+}
+
+pub fn compare_pstate(p: &avt::verif::ParserState, pm: &PModel) -> Option<Mismatch> {
     if St::of(p.state) != pm.st {
         return mm(MisKind::HParser, format!("parser state real {:?} model {:?}", p.state, pm.st));
     }
